@@ -263,6 +263,10 @@ type Gen struct {
 	noKey   bool
 	style   string // store style hint: decides which value conversions are sensible
 	safeDiv bool   // only divide by non-zero literals (no data-dependent evaluation errors)
+	// keyListWhere: the WHERE clause is a bare literal key set (IN list or OR of
+	// equalities, some keys missing from any store), optionally with one alias atom
+	// conjoined: the multi-get access path with its short, uneven chunks
+	keyListWhere int // 0 off, 1 bare, 2 with the alias atom
 }
 
 var allFeatures = []string{"cmp", "prefix-regexp", "in-literal", "in-list", "between", "logic", "arith-int", "arith-float",
@@ -917,7 +921,31 @@ func (g *Gen) Select(wantAlias bool) *GSelect {
 		}
 	}
 	q.Where = g.B(depth)
-	if wantAlias && len(g.aliases) > 0 && !q.Where.usesAlias() {
+	if g.keyListWhere > 0 {
+		k := &GExpr{Kind: "key", T: TS}
+		n := r.Range(2, 6)
+		var ks []string
+		if r.Chance(0.5) {
+			ks = append(ks, pick(r, []string{"0", "a0", "k", "k9zz"})) // a first key that is in no store
+		}
+		for len(ks) < n {
+			ks = append(ks, fmt.Sprintf("k%03d", r.Intn(16)))
+		}
+		if r.Bool() {
+			args := []*GExpr{k}
+			for _, x := range ks {
+				args = append(args, lit(x))
+			}
+			q.Where = &GExpr{Kind: "in", T: TB, Op: "list", Args: args}
+		} else {
+			op := pick(r, []string{"|", "or"})
+			q.Where = bin(TB, "=", k, lit(ks[0]))
+			for _, x := range ks[1:] {
+				q.Where = bin(TB, op, q.Where, bin(TB, "=", k, lit(x)))
+			}
+		}
+	}
+	if wantAlias && len(g.aliases) > 0 && !q.Where.usesAlias() && g.keyListWhere != 1 {
 		// force a use: conjoin an atom over an alias
 		a := pick(r, g.aliases)
 		ref := &GExpr{Kind: "alias", T: a.t, S: a.name, NK: a.nk}
